@@ -138,6 +138,12 @@ def run_job(args):
             return None
         if label in r["failed"]:
             return {"label": label, "values": values, "observed": r["out"], "timeout": r.get("timeout", False)}
+        sym = state.get("sym_out")
+        if sym is not None and json.loads(json.dumps(norm(sym, model))) != r["out"]:
+            # the shadow-value model differs from the real code on this input: engine limitation,
+            # the path is degraded to this concrete run (which satisfies the assertion)
+            res["degraded"].append(f"engine mismatch on a counterexample candidate for {label}: {values}"[:400])
+            return None
         res["inconclusive"].append(f"counterexample for {label} did not reproduce on the un-instrumented code: {values}")
         return None
 
@@ -150,18 +156,37 @@ def run_job(args):
         cx = state["cx"]
         res["paths"] += 1
         if state["degraded"]:
-            # not modelled: check this path concretely on one model of its path condition
-            m = e.get_model()
+            # not modelled: this path is checked concretely on a few *different* models of its path
+            # condition (each later model must differ from the earlier ones in some hole)
             res["degraded"].append(state["degraded"])
-            v = confirm(cx, "*", m, degraded=True)
-            if v is not None and len(res["violations"]) < max_viol:
-                res["violations"].append(v)
+            blocks = []
+            for _k in range(int(opts.get("degraded_models", 4))):
+                if e.check(*blocks) != z3.sat:
+                    break
+                m = e.solver.model()
+                v = confirm(cx, "*", m, degraded=True)
+                if v is not None:
+                    if len(res["violations"]) < max_viol:
+                        res["violations"].append(v)
+                    break
+                diff = []
+                for name in cx.order:
+                    t = cx.decl[name][1]
+                    diff.append(t != m.eval(t, model_completion=True))
+                if not diff:
+                    break
+                # prefer models that differ in every hole; fall back to "some hole differs"
+                if e.check(*blocks, *diff) == z3.sat:
+                    blocks = blocks + diff
+                else:
+                    blocks = blocks + [z3.Or(*diff)]
+            e.model = None
             return
         if not e.guards_hold():
             res["inconclusive"].append("64-bit bound exceeded on a path (integer would leave the modelled range)")
             return
+        state["sym_out"] = out
         asserts = h.check(spec, cx, out)
-        model0 = None
         for label, term in asserts:
             res["asserts"] += 1
             if isinstance(term, bool):
@@ -211,9 +236,18 @@ def run_job(args):
             if r.get("error") or r.get("skipped") or r.get("timeout"):
                 res["inconclusive"].append(f"cross-check run failed: {r.get('error') or 'timeout'} values={values}")
             elif json.loads(json.dumps(sym)) != r["out"]:
-                res["inconclusive"].append(
-                    f"ENGINE MISMATCH: symbolic output differs from the un-instrumented code on {values}: sym={json.dumps(sym)[:300]} real={json.dumps(r['out'])[:300]}"
-                )
+                # the shadow-value model does not reproduce the real code on this path (an engine
+                # limitation, e.g. code using a construct the shims do not model): the symbolic verdict
+                # of this path is not trusted -- the path is degraded to the concrete run just made
+                msg = f"engine mismatch on {values}: sym={json.dumps(sym)[:200]} real={json.dumps(r['out'])[:200]}"
+                if r["failed"]:
+                    if len(res["violations"]) < max_viol:
+                        res["violations"].append({"label": r["failed"][0], "values": values, "observed": r["out"], "timeout": False})
+                else:
+                    res["degraded"].append(msg[:400])
+                res["mismatches"] = res.get("mismatches", 0) + 1
+                if res["mismatches"] > opts.get("max_mismatches", 25):
+                    res["inconclusive"].append("more than 25 paths where the symbolic model differs from the real code: " + msg)
             else:
                 res["crosschecked"] += 1
             if len(res["samples"]) < 2:
